@@ -212,7 +212,10 @@ DumpOK(e) ==
       /\ \A i \in 1..Len(ls) : ls[i].val = M[ls[i].k]
       /\ Shape(d) = Canon(LeafKeySet(d))
       /\ Len(ls) = e.sz
-C11(e) == (Good(e) /\ e.op \in {"Insert", "Delete", "Dump", "Pre"} /\ e.hasd) => DumpOK(e)
+(* an Insert or Delete that faults leaves the index something else than the tree of the key set the call specifies *)
+C11(e) ==
+  /\ NoPanic(e, {"Insert", "Delete", "Pre"})
+  /\ (Good(e) /\ e.op \in {"Insert", "Delete", "Dump", "Pre"} /\ e.hasd) => DumpOK(e)
 Inv_C11 == Each(C11)
 
 (* C12 - a tree emptied by deletions is indistinguishable from a new one;   *)
